@@ -15,6 +15,7 @@ import HavocVerif.Driver.C14
 import HavocVerif.Driver.C15
 import HavocVerif.Driver.C16
 import HavocVerif.Driver.C18
+import HavocVerif.Driver.C20
 /-
   Line-protocol driver.  `driver <property> < ops.txt` prints one verdict per
   input line, prefixed with the 1-based line number.  A line `reset` starts a
@@ -48,6 +49,7 @@ def stepperFor (prop : String) : Option Stepper :=
   | "C15" => some ⟨DriverC15.St, {}, DriverC15.step⟩
   | "C16" => some ⟨DriverC16.St, {}, DriverC16.step⟩
   | "C18" => some (stateless DriverC18.step)
+  | "C20" => some (stateless DriverC20.step)
   | _ => none
 
 partial def loop (h : IO.FS.Stream) (out : IO.FS.Stream) (S : Stepper) (st : S.σ) (n : Nat) : IO Unit := do
